@@ -2,6 +2,7 @@ import CookModel.Side.Serde
 import CookModel.Lemmas.Serde
 import CookModel.Lemmas.SerdeAudit
 import CookModel.Lemmas.SerdeMods
+import CookModel.Lemmas.SerdeModsParsed
 /-
   C15  Recipes survive serialization.
 
@@ -103,7 +104,7 @@ theorem C15_reencode_scaled {α} [Arith α] (c : NumCodec α) (hc : c.RoundTrips
     deserializer of `f64` rejects. -/
 theorem C15_nonfinite_unreadable {α} [Arith α] (c : NumCodec α) (x : α) (hx : Arith.isFinite x = false) :
     decNumber c (encNumber c (.regular x)) = none := by
-  simp [encNumber, decNumber, adj, Json.tagOf, Json.field, lookup, encF64, decF64, hx]
+  simp [encNumber, decNumber, adj, Json.tagOf, Json.field, Serde.lookup, encF64, decF64, hx]
 
 /-! ### Added by the clause audit (notes/audit-C15.md) -/
 
@@ -153,7 +154,8 @@ theorem C15_decode_encode_scaled_rat (c : NumCodec Rat) (hc : c.RoundTrips)
     given one joined with the inherited flags and `REF`); (3) such a set survives the `"A | B"` string form.
     MISSING for the full clause: the sweep showing that every `Ingredient` / `Cookware` stored by the analysis carries
     either the event's modifiers or the result of `resolve_reference` on them (an invariant of `processEvent` over the
-    event stream of `pullEvents`); see notes/audit-C15.md. -/
+    event stream of `pullEvents`); see notes/audit-C15.md.  (That sweep is now done: `C15_parsed_recipe_mods_known` below
+    is the full clause.) -/
 theorem C15_modifier_flags_partial {α : Type} [Arith α] :
     (∀ (mtoks : List Tok) (pos : Nat) (s : BP α), (parseModifiers (α := α) mtoks pos s).1.flags.val.bits < 32) ∧
     (∀ (env : Env) (container : String) (inherit : Nat) (existing : List (Str × Modifiers)) (name : Str)
@@ -165,6 +167,86 @@ theorem C15_modifier_flags_partial {α : Type} [Arith α] :
    fun env container inherit existing name mods location modLoc s hm hi =>
      audit_resolveReference_bits env container inherit existing name mods location modLoc s hm hi,
    ⟨by decide, by decide⟩, fun m h => decMods_encMods m h⟩
+
+/-! ### `RecipeModsKnown` discharged for parsed recipes (Lemmas/SerdeModsStream.lean, SerdeModsCollector.lean,
+    SerdeModsParsed.lean)
+
+    `Col.toRecipe` (Lemmas/ParsedScaled.lean) reads the collector the analysis returns as the `Recipe` it packs;
+    the metadata mapping `m` and the `data` field are arbitrary in the statements below (for the recipe `parse`
+    returns they are the front matter / `>>` map and `c.servings`), so the statements cover them. -/
+
+/-- Parser side: every `Ingredient` / `Cookware` event the pull parser emits — for every character table, extension
+    set and input — carries modifier bits among the five declared flags. -/
+theorem C15_parsed_events_mods_known {α} [Arith α] (cs : CharSpec) (ext : Ext) (input : Str) :
+    ∀ ev ∈ (pullEvents (α := α) cs ext input).1.toList, EvModsOK ev :=
+  pullEvents_modsOK cs ext input
+
+/-- **The premise `RecipeModsKnown` holds of every parsed recipe**: for every environment and every input, valid or
+    with diagnostics, every ingredient and every cookware item of the recipe `parse` returns has modifier bits among
+    the five declared flags (`bits < 32`), which is what the `bitflags` string form `"A | B"` can carry.  (Parser:
+    only `parse_modifiers` writes the field; analysis: `ingredient` / `cookware` start from the event's modifiers,
+    `resolve_reference` joins inherited flags and REF, `set_referenced_from` rewrites a relation only.) -/
+theorem C15_parsed_recipe_mods_known {α} [Arith α] (env : Env) (input : Str) (c : Col α)
+    (h : (parseRecipe (α := α) env input).output = some c) : RecipeModsKnown c.toRecipe :=
+  recipeModsKnown_toRecipe c (parseRecipe_modsOK env input c h)
+
+/-- … stated on the collector itself -/
+theorem C15_parsed_col_mods_known {α} [Arith α] (env : Env) (input : Str) (c : Col α)
+    (h : (parseRecipe (α := α) env input).output = some c) :
+    (∀ i ∈ c.ingredients.toList, i.modifiers.bits < 32) ∧ (∀ k ∈ c.cookware.toList, k.modifiers.bits < 32) :=
+  parseRecipe_modsOK env input c h
+
+/-- … and of everything obtained from a parsed recipe by `scale` / `scale_to_servings` / `default_scale` followed by
+    any number of `convert` calls (`ParsedDerived`): scaling and conversion copy the modifiers. -/
+theorem C15_scaled_recipe_mods_known {α} [Arith α] (r : ScaledRecipe α) (h : ParsedDerived r) : RecipeModsKnown r :=
+  h.modsKnown
+
+/-- **Round trip of a PARSED recipe, no hypothesis about modifiers**: the recipe `parse` returns (any environment, any
+    input), with any JSON-representable metadata and any servings, whose numbers are finite (the property's premise),
+    serializes to JSON that deserializes to an EQUAL recipe, and whatever is read back re-serializes identically.
+    Remaining premises: `c.RoundTrips` (trusted: serde_json with `float_roundtrip`) and `RecipeFinite` (the
+    property's own "finite numbers"). -/
+theorem C15_roundtrip_parsed {α} [Arith α] (c : NumCodec α) (hc : c.RoundTrips) (env : Env) (input : Str)
+    (col : Col α) (h : (parseRecipe (α := α) env input).output = some col) (m : Metadata) (sv : Servings)
+    (hfin : RecipeFinite scalableFinite col.toRecipe) :
+    decScalableRecipe c (encScalableRecipe c ⟨m, col.toRecipe, sv⟩) = some ⟨m, col.toRecipe, sv⟩ ∧
+    ∀ r', decScalableRecipe c (encScalableRecipe c ⟨m, col.toRecipe, sv⟩) = some r' →
+      encScalableRecipe c r' = encScalableRecipe c ⟨m, col.toRecipe, sv⟩ :=
+  have hm := C15_parsed_recipe_mods_known env input col h
+  ⟨C15_decode_encode_scalable c hc ⟨m, col.toRecipe, sv⟩ hfin hm,
+   fun r' hr' => C15_reencode_scalable c hc ⟨m, col.toRecipe, sv⟩ r' hfin hm hr'⟩
+
+/-- **Round trip of a parsed recipe AFTER scaling and conversion, no hypothesis about modifiers**: a recipe obtained
+    from `parse` by `scale` / `scale_to_servings` / `default_scale` and any number of `convert` calls, with finite
+    numbers, deserializes to the same recipe (the unserialized payload of `ScaleOutcome::Error` read back as the
+    default), its re-serialization is identical, and what was read back is a fixed point. -/
+theorem C15_roundtrip_parsed_scaled {α} [Arith α] (c : NumCodec α) (hc : c.RoundTrips)
+    (r : ScaledRecipe α) (h : ParsedDerived r) (m : Metadata) (d : Scaled α)
+    (hfin : RecipeFinite valueFinite r) (hd : scaledFinite d) :
+    decScaledRecipe c (encScaledRecipe c ⟨m, r, d⟩) = some ⟨m, r, d.normalize⟩ ∧
+    (∀ r', decScaledRecipe c (encScaledRecipe c ⟨m, r, d⟩) = some r' →
+      encScaledRecipe c r' = encScaledRecipe c ⟨m, r, d⟩ ∧ decScaledRecipe c (encScaledRecipe c r') = some r') :=
+  have hm := C15_scaled_recipe_mods_known r h
+  ⟨C15_decode_encode_scaled c hc ⟨m, r, d⟩ hfin hm hd,
+   fun r' hr' => ⟨C15_reencode_scaled c hc ⟨m, r, d⟩ r' hfin hm hd hr',
+                 C15_scaled_fixed_point c hc ⟨m, r, d⟩ r' hfin hm hd hr'⟩⟩
+
+/-- Over exact rationals NOTHING is assumed of the parsed recipe: every recipe `parse` returns round-trips, under the
+    codec hypothesis alone. -/
+theorem C15_roundtrip_parsed_rat (c : NumCodec Rat) (hc : c.RoundTrips) (env : Env) (input : Str)
+    (col : Col Rat) (h : (parseRecipe (α := Rat) env input).output = some col) (m : Metadata) (sv : Servings) :
+    decScalableRecipe c (encScalableRecipe c ⟨m, col.toRecipe, sv⟩) = some ⟨m, col.toRecipe, sv⟩ ∧
+    ∀ r', decScalableRecipe c (encScalableRecipe c ⟨m, col.toRecipe, sv⟩) = some r' →
+      encScalableRecipe c r' = encScalableRecipe c ⟨m, col.toRecipe, sv⟩ :=
+  C15_roundtrip_parsed c hc env input col h m sv (recipeFinite_rat _ scalableFinite_rat _)
+
+/-- … the same after scaling and conversion (in particular for every `ParsedScaled` recipe of C10 / C19). -/
+theorem C15_roundtrip_parsed_scaled_rat (c : NumCodec Rat) (hc : c.RoundTrips)
+    (r : ScaledRecipe Rat) (h : ParsedDerived r) (m : Metadata) (d : Scaled Rat) :
+    decScaledRecipe c (encScaledRecipe c ⟨m, r, d⟩) = some ⟨m, r, d.normalize⟩ ∧
+    (∀ r', decScaledRecipe c (encScaledRecipe c ⟨m, r, d⟩) = some r' →
+      encScaledRecipe c r' = encScaledRecipe c ⟨m, r, d⟩ ∧ decScaledRecipe c (encScaledRecipe c r') = some r') :=
+  C15_roundtrip_parsed_scaled c hc r h m d (recipeFinite_rat _ valueFinite_rat _) (scaledFinite_rat _)
 
 /-! Non-vacuity: a codec over ℚ that round-trips (unary spelling of numerator and denominator),
     and a recipe that satisfies the hypotheses. -/
@@ -203,4 +285,49 @@ example : encIngRelation ⟨.reference 0, some .step⟩ =
     .obj [(.type, .str Tag.reference.str), (.referencesTo, .num (.int 0)), (.referenceTarget, .str Tag.step.str)] := rfl
 end Serde
 
+/-! Non-vacuity for the parsed-recipe theorems.  (A whole `parseRecipe` run on an input with components is not
+    evaluated here: the kernel needs a quarter of an hour for `@?x`; the pieces are — `parse_modifiers` on modifier
+    tokens, the analysis on component events — and the hypothesis is shown satisfiable on the empty input.) -/
+
+def C15_exCs : CharSpec :=
+  ⟨fun c => c == ' ', fun _ => false, fun c => c == 'x' || c == 'y', fun c => c == ' ' || c == '\n',
+   fun c => c == 'x' || c == 'y'⟩
+def C15_exEnv : Env := ⟨C15_exCs, ⟨Gen.EXT_MODES⟩, fun _ => none, fun _ _ => .ok, fun c => [c], 0⟩
+
+/-- an ingredient event `@-?x` -/
+def C15_exIngr (bits : Nat) : Ev Rat :=
+  .ingredient ⟨⟨⟨⟨bits⟩, ⟨1, 3⟩⟩, none, Text.fromStr ['x'] 3, none, none, none⟩, ⟨0, 4⟩⟩
+
+/-- the analysis stores the event's modifiers; a reference (`&`) inherits HIDDEN | OPT from its definition -/
+example : ((processEvent C15_exEnv [] (C15_exIngr 2)
+      (processEvent C15_exEnv [] (C15_exIngr 12) { block := some (.step []) }).2).2.ingredients.toList.map
+        (·.modifiers.bits)) = [12, 14] := by
+  decide +kernel
+
+/-- the hypothesis of `C15_parsed_recipe_mods_known` / `C15_roundtrip_parsed` is satisfiable -/
+theorem C15_parsed_recipe_exists : ∃ c, (parseRecipe (α := Rat) C15_exEnv []).output = some c := by
+  have hsome : (parseRecipe (α := Rat) C15_exEnv []).output.isSome = true := by
+    have hl : ∀ off, lexFrom C15_exCs off [] = [] := by intro off; unfold lexFrom; rfl
+    have hf : parseFrontmatter C15_exCs [] = none := by rfl
+    unfold parseRecipe pullEvents
+    simp only [C15_exEnv, hf, lex, hl]
+    rfl
+  cases hc : (parseRecipe (α := Rat) C15_exEnv []).output with
+  | none => rw [hc] at hsome; cases hsome
+  | some c => exact ⟨c, rfl⟩
+
+/-- … and so is `ParsedDerived` (scaled by 2, then converted) -/
+example (cv : Converter Rat) : ∃ r : ScaledRecipe Rat, ParsedDerived r := by
+  obtain ⟨c, hc⟩ := C15_parsed_recipe_exists
+  exact ⟨_, .convert cv .metric _ (.scale _ _ c hc cv 2)⟩
+
+/-- the invariant is not trivially true: it excludes undeclared bits -/
+example : ¬ EvModsOK (C15_exIngr 32) := by simp [EvModsOK, C15_exIngr]
+
+/-- `parse_modifiers` on the tokens of `-?` (HIDDEN | OPT) and of `@&+` (RECIPE | REF | NEW) -/
+example : (parseModifiers (α := Rat) [⟨.minus, ['-'], 1⟩, ⟨.question, ['?'], 2⟩] 1
+      ⟨[], 0, ⟨0⟩, C15_exCs, #[], none⟩).1.flags.val.bits = 12 ∧
+    (parseModifiers (α := Rat) [⟨.at, ['@'], 1⟩, ⟨.and, ['&'], 2⟩, ⟨.plus, ['+'], 3⟩] 1
+      ⟨[], 0, ⟨0⟩, C15_exCs, #[], none⟩).1.flags.val.bits = 19 := by
+  decide +kernel
 end Cook
